@@ -122,7 +122,23 @@ fn tolerated_op(op: &Op, present: bool, r: &OpOut, w: &OpOut) -> Option<&'static
 }
 
 pub fn run_node(wrap: Wrap, hist: &[Op], clock: u64, want_sample: bool) -> NodeOut {
-    util::block_on(run_node_async(wrap, hist, clock, want_sample))
+    let r = std::panic::catch_unwind(std::panic::AssertUnwindSafe(|| {
+        util::block_on(run_node_async(wrap, hist, clock, want_sample))
+    }));
+    match r {
+        Ok(out) => out,
+        Err(p) => {
+            // the reference answers every call of the battery; a panic is not an answer
+            let text = p
+                .downcast_ref::<String>()
+                .cloned()
+                .or_else(|| p.downcast_ref::<&str>().map(|s| s.to_string()))
+                .unwrap_or_default();
+            let mut out = NodeOut::default();
+            out.violations.push(viol(wrap, hist, clock, "panic", "during-history-or-battery", format!("panicked: {text}")));
+            out
+        }
+    }
 }
 
 async fn run_node_async(wrap: Wrap, hist: &[Op], clock: u64, want_sample: bool) -> NodeOut {
